@@ -21,6 +21,7 @@ Public = pointers, size_t lengths, and what the checker can derive from them (lo
 import Bee2V.C14.IRSound
 import Bee2V.Gen.C14IR
 import Bee2V.Gen.C14IR32
+import Bee2V.Gen.C14OblPrim
 
 namespace Bee2V.C14
 open Bee2V.C14.IR Bee2V.Gen.C14IR
@@ -56,6 +57,19 @@ theorem safe_routines_trace_independent_w32 (fn : Fun) (hfn : fn ∈ Bee2V.Gen.C
 
 theorem roots_translated_w32 :
     Bee2V.Gen.C14IR32.roots.all (fun r => Bee2V.Gen.C14IR32.names.any (fun n => n.1 == r)) = true := by decide
+
+/-- Block primitives (beltBlockEncr/Decr[2,3], beltCompr[2], beltPolyMul with ppMul1/2/4 and ppRedBelt,
+beltBlockMulC, bashF with bashF0), re-extracted into `Gen.C14Prim`: accepted by the checker in the
+BRANCHES-ONLY observation model (`strict = false`; table look-ups `H[x]` indexed by secret octets are
+outside the model, as safe.h says; every `if`, loop test, `&&`, `||`, `?:` is inside).  Kernel evaluation of the
+checker in Gen/C14OblPrim.lean (per routine and for the whole program). -/
+theorem primitives_regular : ctProg Bee2V.Gen.C14Prim.prog false = true := Bee2V.C14.OblPrim.ct_prog
+
+/-- the executed branches of every block primitive do not depend on key, block or state contents -/
+theorem block_primitives_branch_independent (fn : Fun) (hfn : fn ∈ Bee2V.Gen.C14Prim.prog.funs) (fuel : Nat)
+    (e1 e2 : Env) (h : LowEq fn e1 e2) :
+    (exec Bee2V.Gen.C14Prim.prog false fuel fn.body e1).2 = (exec Bee2V.Gen.C14Prim.prog false fuel fn.body e2).2 :=
+  checker_sound _ false primitives_regular fn hfn fuel e1 e2 h
 
 /-- Every routine that the source defines as `SAFE(f)` (found by scanning the source text) and
 every verification path has a translated body in `prog`. -/
